@@ -36,7 +36,7 @@ JoinNames(s) == IF s = << >> THEN "" ELSE IF Len(s) = 1 THEN s[1] ELSE s[1] \o "
 Order == <<"json-nonfinite-float", "json-raw-line-break", "json-unescaped-nonprintable-rejected", "loader-float-dot-underscore",
            "loader-float-without-dot-or-signed-exponent", "nel-folded-in-single-quoted-scalar",
            "union-enum-member-serialises-anything",
-           "skip-default-inside-dict-value", "skip-default-required-subcommand-raises", "subcommand-selector-not-dumped">>
+           "skip-default-equal-but-other-type", "skip-default-inside-dict-value", "skip-default-required-subcommand-raises", "subcommand-selector-not-dumped">>
 Names(S) == JoinNames(SelectSeq(Order, LAMBDA a : a \in S))
 RECURSIVE HasSet(_)
 HasSet(v) == IF v.k = "set" THEN TRUE
@@ -108,7 +108,7 @@ CheckCfg(k) ==
       sameKind == kindAs(alg)
       \* the same with an IDEAL scalar layer: what remains when only the configuration-level deviations apply
       ialg    == ReparseCfg(shape, o.cfg, o.fmt, Fl(o, TRUE))
-      cfgdevs == devs \cap {"skip-default-inside-dict-value", "skip-default-required-subcommand-raises", "subcommand-selector-not-dumped"}
+      cfgdevs == devs \cap {"skip-default-equal-but-other-type", "skip-default-inside-dict-value", "skip-default-required-subcommand-raises", "subcommand-selector-not-dumped"}
   IN /\ (~Bad(o.re) /\ SameCfg(o.re, want))
         \/ Say("cfg", k, IF devs # {} /\ (asAlg \/ IsUnsure(alg) \/ sameKind) THEN "ref-dev:" \o Names(devs)
                          ELSE IF cfgdevs # {} /\ ~IsUnsure(ialg) /\ kindAs(ialg) THEN "ref-dev:" \o Names(cfgdevs)
